@@ -1513,10 +1513,11 @@ class DNA(symbolic.Object):
       key = key.id
       return self._decision_by_id[key]
     else:
-      v = self.named_decisions.get(key, None)
-      if v is None:
-        v = self._decision_by_id[key]
-      return v
+      named_decisions = self.named_decisions
+      if key in named_decisions:
+        # The value is None when the named decision point is inactive.
+        return named_decisions[key]
+      return self._decision_by_id[key]
 
   def get(
       self,
